@@ -344,7 +344,11 @@ def handle : Handler := fun input impl =>
               s!" p{i}.gcl={if po.gcl.getD false then 1 else 0} p{i}.gwu={if po.gwu.getD false then 1 else 0} p{i}.icl={if po.icl.getD false then 1 else 0} p{i}.srvopen=0"
             else ""
           | _, _ => ""
-        s!" p{i}.main={listStr pp.main} p{i}.aw={listStr pp.aw} p{i}.guns={pp.guns} p{i}.closes={listStr (pp.closes.map toString)} p{i}.errs={listStr pp.errs}" ++ real
+        -- what the pool consumed is echoed (the Spec judges it; the pool model does not count tokens)
+        let use := match o.pools[i]? >>= (·.use) with
+          | some u => s!" p{i}.use={u}"
+          | none => ""
+        s!" p{i}.main={listStr pp.main} p{i}.aw={listStr pp.aw} p{i}.guns={pp.guns} p{i}.closes={listStr (pp.closes.map toString)} p{i}.errs={listStr pp.errs}" ++ use ++ real
       (head ++ String.join body, v)
 
 end Pandora.Drv.C05
